@@ -66,8 +66,8 @@ func (a AVal) IsBool() (bool, bool) {
 type State struct {
 	ex      *Explorer
 	env     map[ssa.Value]AVal
-	cells   map[ssa.Value]AVal  // local cells (Alloc / FreeVar) → content
-	fields  map[string]AVal     // access-path string → content
+	cells   map[ssa.Value]AVal // local cells (Alloc / FreeVar) → content
+	fields  map[string]AVal    // access-path string → content
 	visits  map[*ssa.BasicBlock]int
 	effects []string
 	unknown []string
@@ -131,6 +131,12 @@ type Explorer struct {
 	MaxVisits int
 	// paths explored (for evidence)
 	Paths int
+	// MaxPaths bounds the number of explored paths (default 40000). When it is
+	// exceeded the exploration stops, Exhausted is set and the program-wide
+	// BudgetExhausted records where: the property check then reports the
+	// obligation as undecided instead of running out of memory.
+	MaxPaths  int
+	Exhausted bool
 }
 
 // Outcome is the summary of one feasible path.
@@ -350,6 +356,18 @@ func (e *Explorer) block(fn *ssa.Function, b, pred *ssa.BasicBlock, st *State, f
 		}
 		e.Paths++
 		emit(o)
+		return
+	}
+	if e.MaxPaths == 0 {
+		e.MaxPaths = 40000
+	}
+	if e.Paths > e.MaxPaths {
+		if !e.Exhausted {
+			e.Exhausted = true
+			if e.P != nil {
+				e.P.BudgetExhausted = append(e.P.BudgetExhausted, Short(Outer(fn)))
+			}
+		}
 		return
 	}
 	st.visits[b]++
